@@ -274,6 +274,8 @@ class Program:
         self.adts = facts["adts"]
         self.consts = facts["consts"]
         self._bodies = {}
+        self._hir = {}
+        self._norm = None
 
     def has(self, name):
         return name in self.fns
@@ -282,6 +284,15 @@ class Program:
         return self.fns.get(name)
 
     def hir(self, name):
+        """normalised HIR (rules/norm.py): new helper functions inlined, match-on-bool read as if, tuple lets split"""
+        if name not in self._hir:
+            if self._norm is None:
+                import norm
+                self._norm = norm.Normaliser(self)
+            self._hir[name] = self._norm.run(name)
+        return self._hir[name]
+
+    def raw_hir(self, name):
         f = self.fns.get(name)
         return f.get("hir") if f else None
 
@@ -316,6 +327,34 @@ class Program:
                     if c and c in self.fns:
                         out.add(c)
         return out
+
+    def owners(self, name, _seen=None):
+        """the pinned-tree functions a function belongs to: itself if it existed on the pinned tree (rules/known_fns.json),
+        otherwise (a helper introduced later) the owners of its callers - so that who-may-write / who-may-call rules treat an
+        extracted helper as part of the function it was extracted from"""
+        import norm
+        known = norm.known_fns()
+        base = name.split("::{closure")[0]
+        if known is None or base in known:
+            return {base}
+        _seen = _seen or set()
+        if base in _seen:
+            return set()
+        _seen.add(base)
+        if not hasattr(self, "_callers"):
+            self._callers = {}
+            for n in self.fns:
+                b = self.body(n)
+                if not b:
+                    continue
+                for _, t in b.calls():
+                    for c in (t.get("inst"), t.get("f")):
+                        if c and c in self.fns:
+                            self._callers.setdefault(c, set()).add(n)
+        out = set()
+        for c in self._callers.get(base, ()):
+            out |= self.owners(c, _seen)
+        return out or {base}
 
     def reachable_fns(self, roots, extra_edges=None):
         seen = set()
